@@ -162,8 +162,8 @@ func c06Random(r *Rng) C06Case {
 	}
 	c.CT = Pick(r, c08CTs)
 	var target *GSchema
-	for _, g := range c.Content {
-		if g != nil {
+	for _, ck := range sortedKeys(c.Content) {
+		if g := c.Content[ck]; g != nil {
 			target = g
 		}
 	}
